@@ -48,7 +48,7 @@ func c07(c *Ctx) {
 			return e.Kind == px.EvCall && e.Call.Builtin == "delete" && px.IsFieldLoad(e.Call.Args[0], g.mapField, nil)
 		}
 		done := calleeIs("sync.(*WaitGroup).Done")
-		c.forall(g.rule, pkg+".(*"+g.typ+").makeCall", "fn runs exactly once; on every exit incl. panic the key is deleted from the map exactly once and before wg.Done(), both after fn", f, ps, func(p *px.Path) (bool, string) {
+		c.forall(g.rule, pkg+".(*"+g.typ+").makeCall", "fn runs exactly once; on every exit incl. panic the key is deleted from the map exactly once and wg.Done() is called exactly once, both after fn", f, ps, func(p *px.Path) (bool, string) {
 			fs := p.All(isFn)
 			if len(fs) != 1 {
 				return false, fmt.Sprintf("fn called %d times", len(fs))
@@ -60,9 +60,8 @@ func c07(c *Ctx) {
 			if !isParam(ds[0].Call.Args[1], keyP) {
 				return false, "another key is deleted"
 			}
-			if ds[0].Seq > dn[0].Seq {
-				return false, "wg.Done() precedes the deletion of the key: a caller arriving in between joins a finished call"
-			}
+			// the relative order of the two is deliberately not pinned: a caller that joins between Done and
+			// delete still overlaps the leading call (which has not returned yet), so the property holds either way
 			if ds[0].Seq < fs[0].Seq || dn[0].Seq < fs[0].Seq {
 				return false, "completion runs before fn"
 			}
